@@ -245,6 +245,7 @@ class ReplayOutcome:
         self.failures = []   # (index, sig, detail)
         self.crashes = []    # (index, text)
         self.timeouts = []   # index
+        self.truncated = []  # shards given up after 200 attributed crashes
         self.errors = []     # (index, text)
         self.side = []       # side-channel documents ("O" lines), as JSON text
 
@@ -351,8 +352,10 @@ def replay(engine, infile, nshards=None, timeout=30, env=None, rlimit_as=None, r
                 return
             restarts += 1
             if restarts > 200:
+                # every restart was a death or hang of the real code attributed to a scenario: the shard's
+                # remaining scenarios stay unexplored, the crashes recorded so far are the verdict
                 with lock:
-                    out.errors.append((-1, "too many child restarts in shard %d" % k))
+                    out.truncated.append(k)
                 return
 
     ths = [threading.Thread(target=worker, args=(k,)) for k in range(nshards)]
@@ -485,6 +488,9 @@ def load_known():
     return out
 
 
+CURRENT = None
+
+
 class Verdict:
     """Collects violations of one property run, separates known findings, writes replay
     files, prints the contract lines and computes the exit code."""
@@ -496,6 +502,8 @@ class Verdict:
         self.known_defs = [k for k in load_known() if k.get("property") == prop and k.get("status") == "open"]
         self.t0 = time.time()
         self.notes = []
+        global CURRENT
+        CURRENT = self
         os.makedirs(REPLAYS, exist_ok=True)
         for f in os.listdir(REPLAYS):
             if f.startswith(prop + "-"):
@@ -529,6 +537,17 @@ class Verdict:
             json.dump(doc, f, indent=1, default=str)
         self.violations.append({"sig": sig, "replay": path})
 
+    def aborted(self, reason):
+        """The run stopped early (tool trouble AFTER real-code deviations were recorded): the deviations
+        stand.  Returns 1 after printing them, or None when there is nothing to report."""
+        if not [v for v in self.violations if v["replay"]]:
+            return None
+        sigs = sorted({v["sig"] for v in self.violations})
+        return self.finish("other", {"evaluations": len(self.violations), "distinct_nontrivial": len(sigs),
+                                     "rule": "run aborted before completion (%s); the violations recorded before the abort are "
+                                             "deviations of the real code and are reported, nothing else is claimed" % str(reason)[:300],
+                                     "samples": sigs[:10]}, ["aborted run: coverage incomplete"])
+
     def finish(self, level, coverage, assumptions):
         wall = time.time() - self.t0
         for kid, (what, cnt) in sorted(self.known.items()):
@@ -559,7 +578,7 @@ class Verdict:
 def absorb_replay(verdict, outcome, engine, scenfile, crash_sig=None, extra=None):
     """Turns a ReplayOutcome into violations (failures, crashes, timeouts).  Harness errors
     make the run inconclusive."""
-    if outcome.errors:
+    if outcome.errors and not (outcome.failures or outcome.crashes or outcome.timeouts):
         raise Inconclusive("harness errors: %s" % outcome.errors[:3])
     for idx, sig, detail in outcome.failures:
         verdict.violation(sig, dict(engine=engine, scenario=json.loads(read_line(scenfile, idx)), detail=detail,
@@ -573,6 +592,10 @@ def absorb_replay(verdict, outcome, engine, scenfile, crash_sig=None, extra=None
         sc = json.loads(read_line(scenfile, idx))
         verdict.violation("%s/timeout" % engine, dict(engine=engine, scenario=sc, detail={"timeout": True},
                                                        **(extra or {})))
+    if outcome.errors:
+        # deviations of the real code found so far stand (see bin/check: an inconclusive run that has
+        # already recorded violations reports them); without any, the run is inconclusive
+        raise Inconclusive("harness errors: %s" % outcome.errors[:3])
 
 
 def samples_from(path, k=3):
